@@ -36,6 +36,18 @@ def scenarios(tier):
             for redirect in (False, True):
                 S.append(dict(inl="paired", outl=False, pf=pf, keys=list(spec), final=None, sides="both", redirect=redirect, demux=None,
                               spec=spec, pa=False))
+    # a minimum- and a maximum-length specification together (one- and two-sided in every combination)
+    for ms in LENSPECS[:4]:
+        for Ms in LENSPECS[4:]:
+            for pf in (None, "any", "both", "first"):
+                S.append(dict(inl="paired", outl=False, pf=pf, keys=["m", "M"], final=None, sides="both", redirect=True, demux=None,
+                              spec=dict(ms, **Ms), pa=False))
+    # files that describe R1 only (info/rest/wildcard file) must not change what happens to the pair
+    for side in ("info_file", "rest_file", "wildcard_file"):
+        for keys in ([], ["m"]):
+            for pf in (None, "both"):
+                S.append(dict(inl="paired", outl=False, pf=pf, keys=keys, final=None, sides="both", redirect=bool(keys), demux=None,
+                              spec=None, pa=False, side=side))
     for demux in ("name", "combinatorial"):
         for keys in ([], ["m"], ["m", "max_n"], FKEYS):
             for final in (None, "discard_untrimmed", "untrimmed_output"):
@@ -87,6 +99,8 @@ def opts_of(sc):
         o.pop("discard_trimmed", None)
     outs = dict(demux=sc["demux"], too_short_output=sc["redirect"] and "m" in o, too_long_output=sc["redirect"] and "M" in o,
                 untrimmed_output=sc["final"] == "untrimmed_output", interleaved_out=sc["outl"])
+    if sc.get("side"):
+        outs[sc["side"]] = True
     return o, outs
 
 
